@@ -7,16 +7,16 @@ import "github.com/alttpo/snes/zzsimrt"
 // Instrumented reports whether the library under test is the P-yield/P-maporder/P-globals copy.
 const Instrumented = true
 
-func setHook(h func(site int32))   { zzsimrt.Hook = h }
-func setPerm(p func(n int) []int)  { zzsimrt.Perm = p }
+func setHook(h func(site int32))  { zzsimrt.Hook = h }
+func setPerm(p func(n int) []int) { zzsimrt.Perm = p }
 func siteName(i int32) string {
 	if int(i) < len(zzsimrt.Sites) {
 		return zzsimrt.Sites[i]
 	}
 	return "?"
 }
-func nSites() int           { return len(zzsimrt.Sites) }
-func mapRangesRun() uint64  { return zzsimrt.MapRanges }
+func nSites() int          { return len(zzsimrt.Sites) }
+func mapRangesRun() uint64 { return zzsimrt.MapRanges }
 
 type globalVar struct {
 	Name string
